@@ -23,6 +23,7 @@
 From Coq Require Import NArith List Bool PeanoNat String.
 Require Import Model.Base Model.Ir Model.Preprocess Spec.LexSpec Proofs.PreprocessProofs.
 Require Import Model.Labels Gen.LabelSites Proofs.LabelsProofs.
+Require Model.Ast Model.Desugar Spec.ExpandSpec Proofs.DesugarMetas.
 Import ListNotations.
 
 (* --- (1) the pre-processor keeps every offset ------------------------------ *)
@@ -95,6 +96,26 @@ Theorem C04_labels_wellformed_end_to_end :
     labels_of (sources_of c) = Ok ls -> In l ls -> P (l_start l) (l_end l).
 Proof. exact labels_wellformed_end_to_end. Qed.
 Print Assumptions C04_labels_wellformed_end_to_end.
+
+(* desugar_metas_from_input, proved by agent-C18 (Proofs.DesugarMetas): every meta
+   of the desugared body of a template is a meta of the parsed body, hence any
+   property of the parser's ranges (start <= end, inside the file, on scalar
+   boundaries) is inherited by the desugared statements.  What remains a
+   hypothesis of C04_labels_wellformed_end_to_end is the same provenance for IR
+   lifting and SSA (new nodes there carry the meta of the AST node they come from
+   or Meta::default()). *)
+Theorem C04_desugar_metas_from_input : forall env lib body body',
+  Model.Desugar.desugar_template env lib body = Model.Desugar.DOk body' ->
+  forall m, In m (Spec.ExpandSpec.stmt_metas body') -> In m (Spec.ExpandSpec.stmt_metas body).
+Proof. exact Proofs.DesugarMetas.desugar_metas_from_input. Qed.
+Print Assumptions C04_desugar_metas_from_input.
+
+Theorem C04_desugared_ranges_wellformed : forall (P : N -> N -> Prop) env lib body body',
+  Forall (fun m => P (Model.Ast.m_start m) (Model.Ast.m_end m)) (Spec.ExpandSpec.stmt_metas body) ->
+  Model.Desugar.desugar_template env lib body = Model.Desugar.DOk body' ->
+  Forall (fun m => P (Model.Ast.m_start m) (Model.Ast.m_end m)) (Spec.ExpandSpec.stmt_metas body').
+Proof. exact (fun P => Proofs.DesugarMetas.desugar_meta_property_inherited (fun m => P (Model.Ast.m_start m) (Model.Ast.m_end m))). Qed.
+Print Assumptions C04_desugared_ranges_wellformed.
 
 Theorem C04_synthesised_statements_have_no_file : forall c,
   guarded_constructor c = true ->
